@@ -3,7 +3,7 @@ import z3
 from .engine import RLIMIT_PER_MS
 
 from . import vals as V
-from .sym import Z, C, ZBool, ZInt, Unsupported
+from .sym import Z, C, ZBool, ZInt, Unsupported, LTuple as LTuple_, LList as LList_
 
 
 def _b(ip, v):
@@ -54,6 +54,13 @@ def call_prim(ip, name, args, kwargs):
             return ZBool(z3.Function("PartApplies", V.Val, V.Val, V.B)(part, node))
         from .sym import LList
         return LList(None, z3.Function(name, V.Val, V.Val, V.VS)(part, node))
+    if name in ("fst", "snd"):
+        # component of a pair (a list or a tuple); specification-level, so no case split on the kind of the value
+        x = args[0]
+        i = 0 if name == "fst" else 1
+        if isinstance(x, (LTuple_, LList_)) and getattr(x, "items", None) is not None and (not isinstance(x, LList_) or x.concrete):
+            return x.items[i]
+        return Z(V.seq_items(ip.to_z(x))[i])
     if name == "as_obj":
         x, cls = args[0], args[1].v
         if isinstance(x, Z):
